@@ -24,9 +24,17 @@ class CallMixin:
     def e_Call(self, e, fr):
         from .interp import Frame, LOGGER
         ex = self.ex
-        # logger.xxx(...): arguments are not evaluated (f-strings / formatting only), total no-op
+        # logger.xxx(...): the logging itself is a total no-op and plain formatting arguments are not evaluated - but an argument that CALLS something is
+        # evaluated for its effects and exceptions (logger.debug('peer: {}', sock.getpeername()) raises what getpeername() raises); a call the engine has no
+        # model for is assumed total, and recorded as such
         if isinstance(e.func, ast.Attribute) and isinstance(e.func.value, ast.Name) and e.func.value.id == 'logger':
             ex.notes_abstracted.add('logger.* calls: no-op, assumed total')
+            for a in list(e.args) + [kw.value for kw in e.keywords]:
+                if any(isinstance(n, ast.Call) for n in ast.walk(a)):
+                    try:
+                        self.eval(a.value if isinstance(a, ast.Starred) else a, fr)
+                    except Undecided:
+                        ex.notes_abstracted.add('logger.* argument that calls a function without a model: assumed total')
             return NONE
         if isinstance(e.func, ast.Name) and e.func.id == 'super' and not e.args:
             if fr.owner is None:
